@@ -3,7 +3,8 @@ CONSTANTS
   Space = "gen-shell"
   Shapes <- ShapesOf
   FmtChoices <- Fmt01
-  Q <- QABC
+  DCtx <- DCABC
+  Prec = "most_common"
   CurSeq <- CS3
   InvNull = "skip"
   Mut = "none"
